@@ -519,7 +519,16 @@ func (g *Gen) Inputs(t *Tree, n, maxLen int, alphabet []int) [][]int {
 	var res [][]int
 	for tries := 0; len(res) < n && tries < n*6; tries++ {
 		var s []int
-		switch g.pick(8) {
+		switch g.pick(9) {
+		case 8: // runs of the first two letters: near-misses and overlapping occurrences of literals
+			l := 1 + g.pick(maxLen)
+			for i := 0; i < l; i++ {
+				if g.chance(0.75) {
+					s = append(s, alphabet[0])
+				} else {
+					s = append(s, alphabet[g.pick(min(3, len(alphabet)))])
+				}
+			}
 		case 0: // pure noise
 			l := g.pick(maxLen + 1)
 			for i := 0; i < l; i++ {
